@@ -488,6 +488,16 @@ mod store {
         println!("{{\"found\": false}}");
     }
 
+    fn data_size(dir: &std::path::Path) -> u64 {
+        std::fs::read_dir(dir).unwrap().map(|e| e.unwrap()).filter(|e| e.file_name().to_string_lossy().ends_with(".bitcask.data")).map(|e| e.metadata().unwrap().len()).sum()
+    }
+    /// size of the data files of a fresh store that received exactly the given pairs
+    fn fresh_size(model: &BTreeMap<String, String>) -> u64 {
+        let d = tempfile::tempdir().unwrap();
+        { let kv = conf(d.path(), 1 << 40).open().unwrap(); let h = kv.get_handle(); for (k, v) in model.iter() { h.set(b(k), b(v)).unwrap(); } }
+        data_size(d.path())
+    }
+
     /// generic history runner: ops are strings "set k v" / "del k" / "get k" / "merge" / "reopen" / "precreate-data N" / "precreate-hint N"
     pub fn run_history(max: u64, mode: &str, ops: &[&str], label: &str) {
         let dir = tempfile::tempdir().unwrap();
@@ -548,7 +558,20 @@ mod store {
                     Err(e) => { println!("# op {} `{}` failed: {}", i, op, e); alt.insert(p[1].into(), None); had_fault = true; } } }
                 "get" => { let got = h.get(b(p[1])).map(|o| o.map(|v| String::from_utf8_lossy(&v).to_string())); let exp = model.get(p[1]).cloned();
                     match got { Ok(g) if g == exp => {}, Ok(g) if alt.get(p[1]) == Some(&g) => {}, other => report(label, rp, &hist, format!("op {} `{}` returned {:?}; files {:?}", i, op, other, files(dir.path())), &format!("{:?}", exp)) } }
-                "merge" => { had_merge = true; if let Err(e) = h.verif_merge() { println!("# op {} merge failed: {}", i, e); had_fault = true; } }
+                "merge" => { had_merge = true;
+                    let before = data_size(dir.path());
+                    match h.verif_merge() {
+                        Err(e) => { println!("# op {} merge failed: {}", i, e); had_fault = true; }
+                        Ok(()) => {
+                            // C13: a merge pass never grows the store; with every file eligible it leaves exactly the live pairs
+                            let after = data_size(dir.path());
+                            if after > before { report(label, "C13", &hist, format!("op {} merge: data files grew from {} to {} bytes; files {:?}", i, before, after, files(dir.path())), "not larger than before"); }
+                            if mode == "all" && alt.is_empty() && !had_fault {
+                                let fresh = fresh_size(&model);
+                                if after != fresh { report(label, "C13", &hist, format!("op {} merge (every file eligible): data files hold {} bytes; files {:?}", i, after, files(dir.path())), &format!("{} bytes: the size of a fresh store holding only the {} live pairs", fresh, model.len())); }
+                            }
+                        }
+                    } }
                 "reopen" => { had_reopen = true; drop(h); kv = None; std::thread::sleep(std::time::Duration::from_millis(30));
                     match mk(dir.path()).open() { Ok(k) => kv = Some(k), Err(e) => report(label, if had_fault { "C02,C20" } else { "C02" }, &hist, format!("op {} reopen failed: {}; files {:?}", i, e, files(dir.path())), "the directory can be opened") } }
                 "precreate-data" => { std::fs::File::create(dir.path().join(format!("{}.bitcask.data", p[1]))).unwrap(); }
